@@ -19,7 +19,7 @@ const envPrefix = "GOFLAGS=-mod=mod GOPROXY=off GOSUMDB=off GOTOOLCHAIN=local GO
 func ManifestJSON() ([]byte, error) {
 	type check map[string]any
 	var checks []check
-	var na []map[string]string
+	na := []map[string]string{}
 	for _, id := range allPropertyIDs {
 		p := properties[id]
 		if p == nil {
